@@ -51,10 +51,36 @@ pub fn obs_item(it: &SdesItem) -> Item {
     }
 }
 
+/// The derived accessors of an SDES item must agree with the primary ones: `length()` is the item's length byte
+/// (the bytes after the two-byte item header), `get_value_string()` is `value()` decoded, `priv_prefix_len()` is
+/// the length of `priv_prefix()`.
+pub fn item_derived_accessors(it: &SdesItem) -> Result<(), ObsErr> {
+    let value = it.value();
+    let body = if it.type_() == SdesItem::PRIV {
+        let prefix = it.priv_prefix();
+        if it.priv_prefix_len() as usize != prefix.len() {
+            return Err(ObsErr::Other(format!("SdesItem::priv_prefix_len() = {} but priv_prefix() has {} bytes", it.priv_prefix_len(), prefix.len())));
+        }
+        1 + prefix.len() + value.len()
+    } else {
+        value.len()
+    };
+    if it.length() != body {
+        return Err(ObsErr::Other(format!("SdesItem::length() = {} but the item's content is {} bytes", it.length(), body)));
+    }
+    if it.get_value_string().ok() != String::from_utf8(value.to_vec()).ok() {
+        return Err(ObsErr::Other(format!("SdesItem::get_value_string() = {:?} but value() = {:x?}", it.get_value_string(), value)));
+    }
+    Ok(())
+}
+
 pub fn obs_chunks(s: &Sdes, len: usize) -> Result<Vec<Chunk>, ObsErr> {
     let mut out = Vec::new();
     for c in collect_capped(s.chunks(), len, "Sdes::chunks")? {
         let items = collect_capped(c.items(), len, "SdesChunk::items")?;
+        for it in &items {
+            item_derived_accessors(it)?;
+        }
         out.push(Chunk { ssrc: c.ssrc(), items: items.iter().map(|i| obs_item(i)).collect() });
     }
     Ok(out)
@@ -264,6 +290,27 @@ pub fn obs_packet(p: &Packet, len: usize) -> Result<Pkt, ObsErr> {
 pub fn parse_and_observe(bytes: &[u8]) -> Result<Pkt, ObsErr> {
     let p = Packet::parse(bytes).map_err(ObsErr::Parse)?;
     let first = obs_packet(&p, bytes.len())?;
+    if bytes.len() >= 4 && p.header_data() != [bytes[0], bytes[1], bytes[2], bytes[3]] {
+        return Err(ObsErr::Other(format!("header_data() = {:x?}", p.header_data())));
+    }
+    if p.is_unknown() != matches!(p, Packet::Unknown(_)) {
+        return Err(ObsErr::Other("Packet::is_unknown() disagrees with the variant".into()));
+    }
+    match &p {
+        Packet::App(a) => {
+            let raw: Vec<u8> = a.name().iter().copied().take_while(|&b| b != 0).collect();
+            if a.get_name_string().ok() != String::from_utf8(raw).ok() {
+                return Err(ObsErr::Other(format!("App::get_name_string() = {:?} but name() = {:x?}", a.get_name_string(), a.name())));
+            }
+        }
+        Packet::Bye(b) => {
+            let want = b.reason().map(|r| String::from_utf8(r.to_vec()).ok());
+            if b.get_reason_string().map(|r| r.ok()) != want {
+                return Err(ObsErr::Other(format!("Bye::get_reason_string() = {:?} but reason() = {:x?}", b.get_reason_string(), b.reason())));
+            }
+        }
+        _ => {}
+    }
     // the views are `&self`-pure: asking the same parsed value again must give the same answers
     let again = obs_packet(&p, bytes.len())?;
     if first != again {
